@@ -157,7 +157,7 @@ Theorem write_agree defs dm me h nadd :
   h_kind h = KNormal -> peer_knows dm (h_ent h) = true ->
   violations12 (CWrite defs dm me h nadd) (run_C12 (CWrite defs dm me h nadd)) = [].
 Proof.
-  intros Hk Hp. unfold run_C12, violations12, write_sends. rewrite Hk.
+  intros Hk Hp. unfold run_C12, run_write_model, violations12, write_sends. rewrite Hk.
   destruct (h_has_node h) eqn:Hn; [|reflexivity].
   destruct (h_room h) as [rid|] eqn:Hr; [|reflexivity].
   rewrite (accept_sent_row defs dm me h (h_edge_dels h) rid Hr Hp).
@@ -196,6 +196,32 @@ Proof.
     { intros E. apply Hsingle in E. apply Hag in E. destruct E as [E _]. discriminate. }
     cbn [zb Z.eqb andb].
     destruct (validate_entity me (h_date h) (build_rooms defs) (MEnt h [])); [congruence| | | | |]; reflexivity.
+Qed.
+
+Lemma req_from_write_arith (l n a t na nd : Z) :
+  (if Z.eqb l 0 then (if Z.eqb n 1 && Z.eqb a na && Z.eqb t nd then [] else [0])
+   else (if Z.eqb n 1 && Z.eqb a na && Z.eqb t nd then [0] else [])) = @nil Z ->
+  (if Z.eqb l 0 then (if Z.eqb n 1 && Z.eqb a na && Z.eqb t nd then [] else [0])
+   else (if Z.ltb 0 (1 + na + nd) && (Z.eqb n 1 && Z.eqb a na && Z.eqb t nd) then [0] else [])) = @nil Z.
+Proof.
+  destruct (Z.eqb l 0); [tauto|]. destruct (Z.eqb n 1 && Z.eqb a na && Z.eqb t nd); [discriminate|].
+  intros _. rewrite andb_false_r. reflexivity.
+Qed.
+
+(* an update request submitted as text: whatever the glue of get_mutate_query makes of it (row rewritten
+   or not, references inserted, references removed), the local verdict and the peer's verdict on exactly
+   the rows, references and tombstones produced agree *)
+Theorem request_agree defs dm me e room date author other op :
+  peer_knows dm e = true ->
+  violations12 (CReq defs dm me e room date author other op) (run_C12 (CReq defs dm me e room date author other op)) = [].
+Proof.
+  intros Hp. set (h := req_head e room date author other op). set (nadd := snd (fst (ref_effect op))).
+  pose proof (write_agree defs dm me h nadd eq_refl Hp) as Hw.
+  unfold run_C12, violations12 in *. fold h. fold nadd. cbv beta iota in Hw.
+  unfold run_write_model in *.
+  destruct (write_sends h) as [rid|] eqn:Hs; cbv beta iota zeta in *.
+  - apply req_from_write_arith. exact Hw.
+  - destruct (Z.eqb _ 0); reflexivity.
 Qed.
 
 (* ------------------------------------------------------------------ deletion of a row *)
